@@ -380,6 +380,9 @@ def check(run: Run):
     # (4) ONE identifier: small enough (108 states) that every transition is replayed without a budget in both tiers -
     # every history of one identifier, to any depth: completed and not-completed at once, re-opened in every mode, refused
     cfgs.append("MC_DataStore_single.cfg")
+    # (5) identifiers that are legal file names but read as PATTERNS by glob / fnmatch / Path.match (gene[1] matches gene1):
+    # an identifier is a name, never a pattern.  Half a share of the quick budget (the first levels are replayed completely)
+    cfgs.append("MC_DataStore_glob.cfg")
     logids = ["l1"]
     with Scratch("C13") as scratch:
         stats = {}
@@ -390,7 +393,9 @@ def check(run: Run):
             init = {"comp": {i: NONE for i in ids}, "nc": {i: NONE for i in ids}, "logs": {l: False for l in logids}, "mode": "w", "fresh": True}
             g_dir = Graph(recs)
             g_sql = Graph(r for r in recs if not (r["act"] in ("Write", "WriteNC", "DropNC") and r["args"][-1]))
-            budget = None if total is None or cfg == "MC_DataStore_single.cfg" else total // (len(cfgs) - 1)
+            budget = None if total is None or cfg == "MC_DataStore_single.cfg" else total // (len(cfgs) - 2)
+            if budget is not None and cfg == "MC_DataStore_glob.cfg":
+                budget //= 2
             blind = DirAdapter(ids, logids, scratch)
             blind.md5_blind = True
             passes = [("dir", g_dir, DirAdapter(ids, logids, scratch), budget), ("sqlite", g_sql, SqliteAdapter(ids, logids, scratch), budget)]
